@@ -53,6 +53,7 @@ Definition ecode_table : list (string * Z) := [
   ("ttheader.readACLToken#fmt.Errorf", 8); ("ttheader.readKVInfo#fmt.Errorf", 9);
   ("ttheader.Decode#errors.New", 3); ("ttheader.Decode#fmt.Errorf#1", 4);
   ("ttheader.Decode#fmt.Errorf#2", 7); ("ttheader.Decode#fmt.Errorf#3", 8);
+  ("thrift.Skip#thrift.NewProtocolException", 18);
   (* used by the translator's differential self-test (tools/gotrans/testdata/sem) only *)
   ("sem.inner#fmt.Errorf", 201); ("sem.ErrWrap#errors.New", 202); ("sem.ErrWrap#fmt.Errorf#1", 203);
   ("sem.ErrWrap#fmt.Errorf#2", 204); ("sem.ErrNilDeref#errors.New", 205); ("sem.ErrNilDeref#fmt.Errorf", 206)
